@@ -95,7 +95,7 @@ Proof.
   pose proof (float_oracle_fill fmt64 fmt32 pf64 pf32 back64 back32 (ws_meta st)) as M4.
   destruct (metadata_roundtrip pf64 pf32 fdiv _ xml M1 M2 M3 M4 Hgen) as (_ & Hparse & Hread).
   assert (Hne : xml <> []).
-  { intros ->. vm_compute in Hparse. discriminate. }
+  { intros ->. assert (E : xml_parse [] = ParseErr) by (vm_compute; reflexivity). rewrite E in Hparse. discriminate. }
   (* the binary round trip of [file_prog is xml] *)
   assert (Hfin : final_stream is xml = l) by (unfold final_stream; rewrite Hfp; reflexivity).
   assert (Hlenf : len (d_bytes (pw_dev (fst (pw_flush s)))) = ls_phys_size l).
